@@ -447,6 +447,147 @@ def extract (W : World) (T : Target) (ins outs : List Arg) : Except Err View :=
             | .error e => .error e
             | .ok _ => .ok { inputs := inputVals, outputs := outputVals, nodes := nodes, inits := inits }
 
+/-- extractor, post-processing of the clone (D153): the boundary inputs whose producer is an extracted node.
+    The clone produces them a second time; their consumers are rewired to the graph input and the recomputed
+    output is renamed, so in the extracted graph these values are never overwritten. -/
+def rewired (W : World) (v : View) : List VId :=
+  v.inputs.filter (fun x => match W.prod x with
+    | some n => v.nodes.contains n
+    | none => false)
+
+/-! ## structural measures and decidable hypothesis checkers
+
+These are not transcriptions of repository code: they are the structural notions (independent of the
+`.graph` / `producer()` back pointers) that the theorems of `Props/C18.lean` are stated against, in
+executable form so that the driver can report, for every generated case, whether the hypotheses of the
+theorems hold. -/
+
+mutual
+  /-- every value defined in the graph or in a graph nested in it: inputs, initializers, node outputs -/
+  def defsG : GraphT → List VId
+    | .mk _ ins inits _ ns => ins ++ inits ++ defsNs ns
+  def defsNs : List NodeT → List VId
+    | [] => []
+    | n :: ns => defsN n ++ defsNs ns
+  def defsN : NodeT → List VId
+    | .mk _ outs bs => outs ++ defsGs bs
+  def defsGs : List GraphT → List VId
+    | [] => []
+    | g :: gs => defsG g ++ defsGs gs
+end
+
+/-- outputs of the nodes of one node list (not descending into bodies) -/
+def outsTop : List NodeT → List VId
+  | [] => []
+  | n :: ns => n.outputs ++ outsTop ns
+
+mutual
+  /-- lexical free variables: the values a graph reads from the environment of its enclosing scopes when it
+      is evaluated (node inputs and graph outputs that are not bound by a graph input, an initializer or an
+      earlier node of the same node list) -/
+  def freeG : GraphT → List VId
+    | .mk _ ins inits outs ns =>
+      (freeNs ns ++ outs.filter (fun v => !(outsTop ns).contains v)).filter
+        (fun v => !(ins ++ inits).contains v)
+  def freeNs : List NodeT → List VId
+    | [] => []
+    | n :: ns => freeN n ++ (freeNs ns).filter (fun v => !n.outputs.contains v)
+  def freeN : NodeT → List VId
+    | .mk ins _ bs => ins.filterMap id ++ freeGs bs
+  def freeGs : List GraphT → List VId
+    | [] => []
+    | g :: gs => freeG g ++ freeGs gs
+end
+
+mutual
+  /-- every graph output, at every depth, is bound at the top level of its graph (ONNX: a graph output is
+      produced in that graph; onnx.checker rejects anything else) -/
+  def closedG : GraphT → Bool
+    | .mk _ ins inits outs ns =>
+      outs.all (fun v => (ins ++ inits ++ outsTop ns).contains v) && closedNs ns
+  def closedNs : List NodeT → Bool
+    | [] => true
+    | n :: ns => closedN n && closedNs ns
+  def closedN : NodeT → Bool
+    | .mk _ _ bs => closedGs bs
+  def closedGs : List GraphT → Bool
+    | [] => true
+    | g :: gs => closedG g && closedGs gs
+end
+
+/-- nothing defined inside the graph is read before it is bound -/
+def wellScopedB (b : GraphT) : Bool := (freeG b).all (fun v => !(defsG b).contains v)
+
+/-- the `.graph` back pointers agree with the structure on the subtree of `b`: a value is defined in `b` or
+    deeper exactly when its owner is `b` or a graph nested in `b` (checked over the values of the world and
+    the values the subtree defines) -/
+def backPtrB (W : World) (b : GraphT) : Bool :=
+  ((List.range W.vals.length) ++ defsG b).all (fun v =>
+    (defsG b).contains v == ((gidsG b).map some).contains (W.graphOf v))
+
+/-- hypotheses about the graphs nested in node `n` of the table, for a region of graph `p` -/
+def bodiesOKB (W : World) (p : GId) (n : NId) : Bool :=
+  (W.nodeD n).bodies.all (fun b =>
+    closedG b && wellScopedB b && backPtrB W b && !(gidsG b).contains p)
+
+def neededBy (W : World) (p : GId) (n : NId) : List VId :=
+  (W.nodeD n).ins ++ captured W p (W.nodeD n)
+
+def nodupB : List Nat → Bool
+  | [] => true
+  | x :: xs => !xs.contains x && nodupB xs
+
+def topoSortedB (W : World) (p : GId) : List NId → Bool
+  | [] => true
+  | n :: rest =>
+    (neededBy W p n).all (fun u => (n :: rest).all (fun m => !(W.nodeD m).outputs.contains u)) &&
+    topoSortedB W p rest
+
+/-- the source node list is duplicate free, single assignment with consistent `producer()` pointers,
+    topologically sorted with respect to what the nodes need, and produces no initializer -/
+def sourceOKB (W : World) (p : GId) (g : List NId) : Bool :=
+  nodupB g &&
+  g.all (fun n => (W.nodeD n).outputs.all (fun o => W.prod o == some n)) &&
+  (List.range W.vals.length).all (fun v => match W.prod v with
+    | some n => (W.nodeD n).outputs.contains v
+    | none => true) &&
+  (List.range W.vals.length).all (fun v => !W.isInit v || g.all (fun n => !(W.nodeD n).outputs.contains v)) &&
+  topoSortedB W p g
+
+/-- no value visited by the walk (other than a boundary input) is defined inside a graph nested in a kept
+    node: the scoping hypothesis of `C18_cover_of_clone` / `C18_extract_eval` -/
+def scopeB (W : World) (fn : Bool) (I O : List VId) (p : GId) (ns : List NId) : Bool :=
+  (walk W p (walkInit W fn I O)).valsV.all (fun u =>
+    I.contains u || ns.all (fun n => (W.nodeD n).bodies.all (fun b => !(defsG b).contains u)))
+
+/-- initializer names are pairwise distinct -/
+def initNamesB (W : World) : Bool :=
+  (List.range W.vals.length).all (fun u => (List.range W.vals.length).all (fun u' =>
+    !(W.isInit u && W.isInit u' && (W.val u).name == (W.val u').name) || u == u'))
+
+/-- the owner of `v` is one of the graphs on `chain` (the graph of the use and its ancestors below the
+    analysed root), or it is none of the graphs `all` nested in the analysed root -/
+def ownerOKB (W : World) (all chain : List GId) (v : VId) : Bool :=
+  (chain.map some).contains (W.graphOf v) || !((all.map some).contains (W.graphOf v))
+
+mutual
+  /-- scoping of uses by owner, and graph ids that do not repeat along a path: every value read by a node is
+      owned by the node's graph, by one of its ancestors, or by a graph outside the analysed root; the ids of
+      a graph and of the graphs nested in it differ from the ids of its ancestors and are among `all` -/
+  def scopedGB (W : World) (all : List GId) : List GId → GraphT → Bool
+    | chain, .mk gid _ _ _ ns =>
+      (gid :: gidsNs ns).all (fun j => !chain.contains j && all.contains j) &&
+      scopedNsB W all (gid :: chain) ns
+  def scopedNsB (W : World) (all : List GId) : List GId → List NodeT → Bool
+    | _, [] => true
+    | chain, n :: ns => scopedNB W all chain n && scopedNsB W all chain ns
+  def scopedNB (W : World) (all : List GId) : List GId → NodeT → Bool
+    | chain, .mk ins _ bs => (ins.filterMap id).all (ownerOKB W all chain) && scopedGsB W all chain bs
+  def scopedGsB (W : World) (all : List GId) : List GId → List GraphT → Bool
+    | _, [] => true
+    | chain, g :: gs => scopedGB W all chain g && scopedGsB W all chain gs
+end
+
 /-! ## `analyze_implicit_usage` (analysis/_implicit_usage.py 14-74, with the D34 fix) -/
 
 /-- `implicit_usages`: dict graph -> set of values, in insertion order -/
